@@ -18,6 +18,9 @@ LIB = {
     "req": [("text", "<R>"), ("slot", "a", ("required",), []), ("text", "</R>")],
     "dflt": [("text", "<D>"), ("slot", "a", ("default",), [("text", "["), ("slot", "inner", (), [("text", "DI")]), ("text", "]")]), ("text", "</D>")],
     "pass": [("text", "<P>"), ("call", "two", {"a": [("slot", "x", ("default",), [("text", "DX")])]}), ("text", "</P>")],
+    # one slot NAME used twice with different flags: only the flagged occurrence takes the implicit body
+    "rep": [("text", "<Q>"), ("slot", "m", ("default",), [("text", "M1")]), ("text", "|"), ("slot", "m", (), [("text", "M2")]), ("text", "</Q>")],
+    "rep2": [("text", "<Q2>"), ("slot", "m", (), [("text", "M1")]), ("text", "|"), ("slot", "m", ("default",), [("text", "M2")]), ("text", "|"), ("slot", "m", ("required",), []), ("text", "</Q2>")],
 }
 
 
